@@ -23,6 +23,7 @@ CASES = {
     'json2-small': (A.MSaver, 'small', 3),
     'json2-multi': (A.MSaver, 'multi', 40),
     'json-multi': (A.JSaver, 'multi', 40),
+    'two-multi': (A.TSaver, 'multi', 40),      # result kept in two files
     'pickle-unpicklable0': (A.Saver, 'unpicklable0', 0),
     'pickle-unpicklable1': (A.Saver, 'unpicklable1', 0),
     'pickle-unpicklable-deep': (A.Saver, 'unpicklable-deep', 200),
